@@ -141,7 +141,7 @@ func runPlan(prop string, plan []planItem) int {
 		"exhaustive":                    complete,
 		"bound_completed_min":           minBound,
 		"scenarios":                     perScenario,
-		"rule":                          "stateless DFS by prefix replay over the instrumented implementation under a controlled scheduler; a deviation is a preemption, a non-first ready select case, an injected store fault or a crash; states = distinct canonical end states, transitions = scheduling points executed, traces = complete executions (every one runs the repository's code)",
+		"rule":                          "stateless DFS by prefix replay over the instrumented implementation under a controlled scheduler; a deviation is any departure from the default schedule (default = keep running the current thread, else the lowest-numbered enabled thread, first ready select case, no fault, no crash): a preemption, another thread at a blocking point, a non-first select case, an injected store fault or a crash each cost one; states = distinct canonical end states, transitions = scheduling points executed, traces = complete executions (every one runs the repository's code)",
 	}
 	if !complete {
 		rep.Undecide("wall-clock cap reached before the scenario list was finished at the planned bound; see bound_completed per scenario")
